@@ -176,3 +176,144 @@ Lemma ex_reconstruct :
   par_write ex_terms [5; 3; 4] 2 9 [2; 0; 1]%nat = Some ([3; 4; 5; 6; 7; 8; 9; 10; 11], 9) /\
   par_write ex_terms [5; 3; 4] 2 9 [1; 2; 0]%nat = Some ([3; 4; 5; 6; 7; 8; 9; 10; 11], 9).
 Proof. vm_compute. repeat split; reflexivity. Qed.
+
+(* ---------------------------------------------------------------- the order in which the tasks finish does not matter *)
+Lemma write_at_length file pos data : length (write_at file pos data) = Nat.max (length file) (N.to_nat pos + length data).
+Proof.
+  unfold write_at. rewrite takeN_firstn, dropN_skipn. unfold lenN. rewrite !app_length, firstn_length, skipn_length, !app_length, repeat_length. lia.
+Qed.
+
+Lemma nth_app_pad (file : bytes) n i : nth i (file ++ repeat 0 n) 0 = nth i file 0.
+Proof.
+  destruct (Nat.lt_ge_cases i (length file)) as [H|H].
+  - apply app_nth1. exact H.
+  - rewrite app_nth2 by exact H. rewrite nth_repeat. symmetry. apply nth_overflow. exact H.
+Qed.
+
+Lemma nth_skipn' {A} (l : list A) d : forall n i, nth i (skipn n l) d = nth (n + i) l d.
+Proof. induction l as [|x r IH]; intros [|n] i; cbn [skipn nth plus]; try reflexivity; [destruct i; reflexivity | apply IH]. Qed.
+Lemma nth_firstn' {A} (l : list A) d : forall n i, (i < n)%nat -> nth i (firstn n l) d = nth i l d.
+Proof. induction l as [|x r IH]; intros [|n] [|i] H; cbn [firstn nth]; try reflexivity; try lia. apply IH. lia. Qed.
+
+Lemma write_at_nth file pos data i :
+  nth i (write_at file pos data) 0 =
+  if Nat.leb (N.to_nat pos) i && Nat.ltb i (N.to_nat pos + length data) then nth (i - N.to_nat pos) data 0 else nth i file 0.
+Proof.
+  unfold write_at. rewrite takeN_firstn, dropN_skipn. unfold lenN.
+  set (P := N.to_nat pos). set (base := file ++ repeat 0 (N.to_nat (pos - N.of_nat (length file)))).
+  assert (HB : (P <= length base)%nat) by (unfold base, P; rewrite app_length, repeat_length; lia).
+  assert (Hf : length (firstn P base) = P) by (rewrite firstn_length; lia).
+  replace (N.to_nat (pos + N.of_nat (length data))) with (P + length data)%nat by (unfold P; lia).
+  destruct (Nat.leb_spec P i) as [H1|H1]; cbn [andb].
+  - rewrite app_nth2 by lia. rewrite Hf. destruct (Nat.ltb_spec i (P + length data)) as [H2|H2].
+    + apply app_nth1. lia.
+    + rewrite app_nth2 by lia. rewrite nth_skipn'. replace (P + length data + (i - P - length data))%nat with i by lia.
+      unfold base. apply nth_app_pad.
+  - rewrite app_nth1 by lia. rewrite nth_firstn' by lia. unfold base. apply nth_app_pad.
+Qed.
+
+(* two writes into disjoint regions commute *)
+Lemma write_at_comm file p1 d1 p2 d2 :
+  (N.to_nat p1 + length d1 <= N.to_nat p2 \/ N.to_nat p2 + length d2 <= N.to_nat p1)%nat ->
+  write_at (write_at file p1 d1) p2 d2 = write_at (write_at file p2 d2) p1 d1.
+Proof.
+  intro Hd. apply (nth_ext _ _ 0 0).
+  - rewrite !write_at_length. lia.
+  - intros i _. rewrite !write_at_nth.
+    destruct (Nat.leb_spec (N.to_nat p2) i), (Nat.ltb_spec i (N.to_nat p2 + length d2)), (Nat.leb_spec (N.to_nat p1) i), (Nat.ltb_spec i (N.to_nat p1 + length d1)); cbn [andb]; try reflexivity; lia.
+Qed.
+
+Definition disjoint (a b : N * bytes) : Prop :=
+  (N.to_nat (fst a) + length (snd a) <= N.to_nat (fst b) \/ N.to_nat (fst b) + length (snd b) <= N.to_nat (fst a))%nat.
+Definition apply_writes (file : bytes) (ws : list (N * bytes)) : bytes := fold_left (fun f w => write_at f (fst w) (snd w)) ws file.
+
+Lemma disjoint_sym a b : disjoint a b -> disjoint b a.
+Proof. unfold disjoint. tauto. Qed.
+
+(* pairwise disjoint writes: any order gives the same file, and pairwise disjointness does not depend on the order *)
+Lemma apply_writes_perm ws ws' : Permutation ws ws' ->
+  ForallOrdPairs disjoint ws -> ForallOrdPairs disjoint ws' /\ forall file, apply_writes file ws = apply_writes file ws'.
+Proof.
+  intro Hp. induction Hp as [|x l l' Hp IH|x y l|l l' l'' H1 IH1 H2 IH2]; intro Hd.
+  - split; [exact Hd | reflexivity].
+  - inversion Hd as [|? ? Hx Hl]; subst. destruct (IH Hl) as [A B]. split.
+    + constructor; [eapply Permutation_Forall; eauto | exact A].
+    + intro file. cbn [apply_writes fold_left]. apply B.
+  - inversion Hd as [|? ? Hy Hrest]; subst. inversion Hy as [|? ? Hyx Hyl]; subst. inversion Hrest as [|? ? Hxl Hl]; subst. split.
+    + constructor; [constructor; [apply disjoint_sym; exact Hyx | exact Hxl]|]. constructor; [exact Hyl | exact Hl].
+    + intro file. cbn [apply_writes fold_left]. f_equal. apply write_at_comm. unfold disjoint in Hyx. lia.
+  - destruct (IH1 Hd) as [A B]. destruct (IH2 A) as [C D]. split; [exact C|]. intro file. rewrite B. apply D.
+Qed.
+
+Definition piece (x : bytes * (N * N * N)) : N * bytes :=
+  let '(t, (s, e, fo)) := x in (fo, takeN (dropN t s) (e - s)).
+Definition task_ok (x : bytes * (N * N * N)) : Prop := let '(t, (s, e, _)) := x in e <= lenN t /\ s <= e.
+
+Lemma par_apply_writes tasks : forall file, Forall task_ok tasks -> par_apply file tasks = Some (apply_writes file (map piece tasks)).
+Proof.
+  induction tasks as [|[t [[s e] fo]] r IH]; intros file Hok; [reflexivity|]. inversion Hok as [|? ? Hh Hr]; subst. cbn [task_ok] in Hh. destruct Hh as [H1 H2].
+  cbn [par_apply map piece apply_writes fold_left fst snd].
+  assert (E : (lenN t <? e) = false) by (apply N.ltb_ge; exact H1). rewrite E. apply IH. exact Hr.
+Qed.
+
+Lemma piece_length (t : bytes) s e : e <= lenN t -> s <= e -> length (takeN (dropN t s) (e - s)) = N.to_nat (e - s).
+Proof. intros H1 H2. rewrite takeN_firstn, dropN_skipn, firstn_length, skipn_length. unfold lenN in H1. lia. Qed.
+
+(* the plan: every task fits its term, the file offsets are the running totals, hence the regions are pairwise disjoint *)
+Lemma par_plan_regions lens : forall terms first off rem written plan,
+  par_plan lens first off rem written = Some plan -> map lenN terms = lens ->
+  Forall task_ok (combine terms plan) /\
+  Forall (fun w => (N.to_nat written <= N.to_nat (fst w))%nat) (map piece (combine terms plan)) /\
+  ForallOrdPairs disjoint (map piece (combine terms plan)).
+Proof.
+  induction lens as [|l r IH]; intros terms first off rem written plan Hp Hl; cbn [par_plan] in Hp.
+  - injection Hp as <-. destruct terms; cbn; repeat split; constructor.
+  - destruct terms as [|t ts]; [discriminate|]. cbn [map] in Hl. injection Hl as Hl1 Hl2.
+    set (start := if first then off else 0) in *. set (e := N.min (start + rem) l) in *.
+    destruct (e <? start) eqn:E; [discriminate|]. apply N.ltb_ge in E.
+    destruct (par_plan r false off (rem - (e - start)) (written + (e - start))) as [rest|] eqn:Er; [|discriminate].
+    injection Hp as <-. destruct (IH ts false off _ _ rest Er Hl2) as (A & B & C). cbn [combine map piece].
+    assert (Hfit : e <= lenN t) by (unfold e; lia).
+    repeat split.
+    + constructor; [split; assumption | exact A].
+    + constructor; [cbn [fst]; lia|]. eapply Forall_impl; [|exact B]. cbn beta. intros w Hw. lia.
+    + constructor; [|exact C]. eapply Forall_impl; [|exact B]. cbn beta. intros w Hw. unfold disjoint. cbn [fst snd]. left.
+      rewrite (piece_length t start e Hfit E). lia.
+Qed.
+
+(* whatever order the tasks finish in, the parallel writer produces the same file and reports the same length *)
+Theorem par_write_any_order terms off total order :
+  Permutation order (seq 0 (length terms)) ->
+  par_write terms (map lenN terms) off total order = par_write terms (map lenN terms) off total (seq 0 (length terms)).
+Proof.
+  intro Hperm. unfold par_write. destruct (par_plan (map lenN terms) true off total 0) as [plan|] eqn:Ep; [|reflexivity].
+  destruct (par_plan_regions _ terms true off total 0 plan Ep eq_refl) as (Hok & _ & Hdis).
+  set (tasks := combine terms plan) in *.
+  set (sel := fun i : nat => match nth_error tasks i with Some x => [x] | None => [] end).
+  assert (HP : Permutation (flat_map sel order) (flat_map sel (seq 0 (length terms)))) by (apply Permutation_flat_map; exact Hperm).
+  assert (Hok1 : forall l, (forall x, In x l -> In x tasks) -> Forall task_ok l).
+  { intros l Hin. apply Forall_forall. intros x Hx. rewrite Forall_forall in Hok. apply Hok, Hin, Hx. }
+  assert (Hsub : forall l x, In x (flat_map sel l) -> In x tasks).
+  { intros l x Hx. apply in_flat_map in Hx as (i & _ & Hi). unfold sel in Hi. destruct (nth_error tasks i) eqn:En; [|destruct Hi].
+    destruct Hi as [<-|[]]. eapply nth_error_In. exact En. }
+  rewrite (par_apply_writes (flat_map sel order) [] (Hok1 _ (Hsub order))).
+  rewrite (par_apply_writes (flat_map sel (seq 0 (length terms))) [] (Hok1 _ (Hsub _))).
+  (* the identity order lists every task once: its writes are pairwise disjoint; the other order is a permutation of them *)
+  assert (Hlen : length plan = length terms).
+  { clear -Ep. revert Ep. generalize 0 at 1. generalize total. generalize true. generalize (map_length lenN terms).
+    generalize (map lenN terms) as lens. intros lens. revert terms plan. induction lens as [|l r IH]; intros terms plan Hl b rem w Hp; cbn [par_plan] in Hp.
+    - injection Hp as <-. destruct terms; [reflexivity | discriminate].
+    - destruct terms as [|t ts]; [discriminate|]. destruct (_ <? _); [discriminate|].
+      destruct (par_plan r false off _ _) as [rest|] eqn:Er; [|discriminate]. injection Hp as <-. cbn [length]. f_equal.
+      eapply IH; [|exact Er]. cbn [length] in Hl. lia. }
+  assert (Hid : flat_map sel (seq 0 (length terms)) = tasks).
+  { assert (G : forall (A : Type) (l : list A) k, flat_map (fun i => match nth_error l (i - k) with Some x => [x] | None => [] end) (seq k (length l)) = l).
+    { induction l as [|x l IHl]; intro k; cbn [length seq flat_map]; [reflexivity|]. rewrite Nat.sub_diag. cbn [nth_error app]. f_equal.
+      rewrite <- (IHl (S k)) at 2. apply flat_map_ext_in'. intros a Ha. apply in_seq in Ha. replace (a - k)%nat with (S (a - S k)) by lia. reflexivity. }
+    specialize (G _ tasks O). unfold tasks in G at 2. rewrite combine_length, Hlen, Nat.min_id in G.
+    etransitivity; [|exact G]. apply flat_map_ext_in'. intros a _. unfold sel. rewrite Nat.sub_0_r. reflexivity. }
+  rewrite Hid in *.
+  assert (HPm : Permutation (map piece tasks) (map piece (flat_map sel order))) by (apply Permutation_map; symmetry; exact HP).
+  destruct (apply_writes_perm _ _ HPm Hdis) as [_ Heq]. rewrite <- (Heq []). reflexivity.
+Qed.
+
